@@ -987,8 +987,8 @@ def ws_oracle(case, obs):
                     # the scoping rules never select a declaration inside ANOTHER method's body (a local, or a constant /
                     # type declared inside a body, belongs to that method alone)
                     tspan = _ws_body_span(tl, sel[0])
-                    if tspan is not None and not (tstem == stem and tspan == _ws_body_span(lines, l)):
-                        return ("file %s at %d:%d on %r: the link lands on line %d of %s, inside the body of another method (lines %d-%d)"
+                    if tspan is not None and not (tstem == stem and tspan[0] <= l <= tspan[1]):
+                        return ("file %s at %d:%d on %r: the link lands on line %d of %s, inside the body of a method the cursor is not in (lines %d-%d)"
                                 % (stem, l, col, ident, sel[0], tstem, tspan[0], tspan[1]))
                     got = tl[sel[0]][sel[1]:sel[3]]
                     if "#" in got:
